@@ -73,7 +73,8 @@ IntoInnerC(c, q) == /\ Live(c) /\ x = Empty /\ h' = [h EXCEPT ![q] = cell[c]] /\
 DropC(c)        == /\ Live(c) /\ x = Empty /\ cell' = [d \in (DOMAIN cell) \ {c} |-> cell[d]]
                    /\ Log([op |-> "drop_c", c |-> c]) /\ UNCHANGED <<g, h, x, nobj>>
 DerefG(r)       == /\ g[r] # Empty /\ Log([op |-> "deref_g", g |-> r]) /\ UNCHANGED <<cell, g, h, x, nobj>>
-CacheNew        == /\ WithCache /\ x = Empty /\ Live(0) /\ x' = cell[0] /\ Log([op |-> "cache_new", x |-> 0, c |-> 0]) /\ UNCHANGED <<cell, g, h, nobj>>
+\* m: a mapped cache (Cache::map) - the same abstract behaviour
+CacheNew(m)     == /\ WithCache /\ x = Empty /\ Live(0) /\ x' = cell[0] /\ Log([op |-> "cache_new", x |-> 0, c |-> 0, m |-> m]) /\ UNCHANGED <<cell, g, h, nobj>>
 CacheLoad       == /\ WithCache /\ x # Empty /\ x' = cell[0] /\ Log([op |-> "cache_load", x |-> 0]) /\ UNCHANGED <<cell, g, h, nobj>>
 CacheDrop       == /\ WithCache /\ x # Empty /\ x' = Empty /\ Log([op |-> "cache_drop", x |-> 0]) /\ UNCHANGED <<cell, g, h, nobj>>
 
@@ -90,7 +91,7 @@ Next ==
      \/ \E c \in Conts, q \in HR : Rcu(c, q)
      \/ \E c \in Conts, q \in HR : IntoInnerC(c, q)
      \/ \E c \in Conts : DropC(c)
-     \/ CacheNew \/ CacheLoad \/ CacheDrop
+     \/ CacheNew(TRUE) \/ CacheNew(FALSE) \/ CacheLoad \/ CacheDrop
 
 Spec == Init /\ [][Next]_vars
 
